@@ -81,7 +81,7 @@ func cmdRef() {
 				fmt.Fprintf(os.Stderr, "op %s arg %d is not deterministic:\n%s\n%s\n", ops[i].Name, a, r1, r2)
 				os.Exit(2)
 			}
-			m[ops[i].Name+"|"+strconv.Itoa(a)] = r1
+			m[ops[i].Name+"|"+strconv.Itoa(a)] = short(r1)
 		}
 	}
 	b, _ := json.Marshal(m)
@@ -203,7 +203,7 @@ func runSchedule(id int, sc schedCase, ref map[string]string) map[string]any {
 				arg := (g*5 + c + id) % (nArgs * 4)
 				held = dropOwn(held, g, op.Name, func(e Event) { evs = append(evs, e) })
 				res, buf := runOp(op, arg)
-				evs = append(evs, Event{E: "ret", G: g, C: c + 1, Op: op.Name, Cls: cls, Res: res,
+				evs = append(evs, Event{E: "ret", G: g, C: c + 1, Op: op.Name, Cls: cls, Res: short(res),
 					Seq: ref[op.Name+"|"+strconv.Itoa(arg)], Ref: bufID(bufIDs, buf)})
 				held = append(held, &heldBuf{g: g, c: c + 1, buf: buf, str: res, op: op.Name})
 			}
@@ -222,7 +222,7 @@ func runSchedule(id int, sc schedCase, ref map[string]string) map[string]any {
 		}
 		for _, h := range held {
 			if h.buf != nil {
-				evs = append(evs, Event{E: "look", G: h.g, C: h.c, Now: string(h.buf)})
+				evs = append(evs, Event{E: "look", G: h.g, C: h.c, Now: short(string(h.buf))})
 			}
 		}
 	}
@@ -336,7 +336,7 @@ func runFree(run, n, m int, seed int64, ref map[string]string, menu []*Op) map[s
 					per[g] = append(per[g], e)
 				})
 				res, buf := runOp(op, arg)
-				per[g] = append(per[g], Event{E: "ret", G: g, C: c, Op: op.Name, Cls: op.Class, Res: res,
+				per[g] = append(per[g], Event{E: "ret", G: g, C: c, Op: op.Name, Cls: op.Class, Res: short(res),
 					Seq: ref[op.Name+"|"+strconv.Itoa(arg)], Ref: bufID(bufIDs, buf), n: atomic.AddInt64(&seq, 1)})
 				if buf != nil {
 					mine = append(mine, &heldBuf{g: g, c: c, buf: buf, op: op.Name})
@@ -352,7 +352,7 @@ func runFree(run, n, m int, seed int64, ref map[string]string, menu []*Op) map[s
 				// the caller looks again at the buffers it still holds, after other goroutines ran
 				for _, h := range mine {
 					if h.c < c {
-						per[g] = append(per[g], Event{E: "look", G: g, C: h.c, Now: string(h.buf), n: atomic.AddInt64(&seq, 1)})
+						per[g] = append(per[g], Event{E: "look", G: g, C: h.c, Now: short(string(h.buf)), n: atomic.AddInt64(&seq, 1)})
 					}
 				}
 			}
@@ -378,7 +378,7 @@ func cmdFree(args []string) {
 	n := fs.Int("n", 4, "goroutines")
 	m := fs.Int("ops", 100, "calls per goroutine")
 	runs := fs.Int("runs", 1, "runs")
-	only := fs.String("class", "", "restrict the menu to one API class")
+	only := fs.String("only", "", "restrict the menu to ops whose name contains one of these comma separated texts")
 	procs := fs.Int("procs", 0, "GOMAXPROCS (0: default); few Ps make goroutines share the per-P pool slots")
 	_ = fs.Parse(args)
 	if *procs > 0 {
@@ -388,7 +388,13 @@ func cmdFree(args []string) {
 	seed, _ := strconv.ParseInt(os.Getenv("VERIF_SEED"), 10, 64)
 	var menu []*Op
 	for i := range ops {
-		if *only == "" || ops[i].Class == *only {
+		keep := *only == ""
+		for _, t := range strings.Split(*only, ",") {
+			if t != "" && strings.Contains(ops[i].Name, t) {
+				keep = true
+			}
+		}
+		if keep {
 			menu = append(menu, &ops[i])
 		}
 	}
